@@ -42,100 +42,123 @@ func runC06(args []string) {
 	}
 	sampled := 0
 	totalCuts := 0
-	corpus.forEachType(false, func(ch *core.Child, t *CType) {
-		vg := codec.NewVG(t.Ctx, r.Seed)
-		cand := vg.Records(t.Def, nv*3)
-		// prefer values that exercise many roles: all-present/first values first
-		evs := encodeValues(ch, t, cand)
-		if len(evs) > nv {
-			evs = evs[:nv]
+	passes := []bool{false}
+	if r.Thorough() {
+		if bin, aerr := corpus.mod.buildDriver(corpus.Pkgs, "driver-asan", "-asan"); aerr == nil {
+			corpus.DriverAsan = bin
+			passes = append(passes, true)
+		} else {
+			r.Inconclusive("asan driver unavailable: " + core.Short(aerr.Error(), 120))
 		}
-		for vi, ev := range evs {
-			if r.Broken() {
-				return
+	}
+	for _, asan := range passes {
+		asan := asan
+		if asan {
+			nv = 2
+		}
+		corpus.forEachType(asan, func(ch *core.Child, t *CType) {
+			vg := codec.NewVG(t.Ctx, r.Seed)
+			cand := vg.Records(t.Def, nv*3)
+			// prefer values that exercise many roles: all-present/first values first
+			evs := encodeValues(ch, t, cand)
+			if len(evs) > nv {
+				evs = evs[:nv]
 			}
-			if len(ev.B) == 0 {
-				continue
-			}
-			roles := rolesOf(t, ev.V)
-			decs := []struct{ how, err string }{{"unmarshal", ""}, {"decode", "eof"}}
-			if vi == 0 {
-				decs = append(decs, struct{ how, err string }{"decode", "ueof"}, struct{ how, err string }{"decode", "generic"})
-			}
-			for _, dc := range decs {
-				item := map[string]any{"op": "cuts", "pkg": t.Pkg.Name, "type": t.Def.Name, "hex": hex.EncodeToString(ev.B), "how": dc.how, "err": dc.err}
-				if dc.err == "ueof" {
-					// deliver the prefix, then io.ErrUnexpectedEOF instead of EOF
-					item["err"] = "ueof"
+			for vi, ev := range evs {
+				if r.Broken() {
+					return
 				}
-				codes, detail, dead := runCuts(ch, item, len(ev.B))
-				decName := dc.how
-				if dc.err != "" && dc.err != "eof" {
-					decName += "/" + dc.err
+				if len(ev.B) == 0 {
+					continue
 				}
-				for k, c := range codes {
-					role := "?"
-					if k < len(roles) {
-						role = roles[k].Kind
+				roles := rolesOf(t, ev.V)
+				decs := []struct{ how, err string }{{"unmarshal", ""}, {"decode", "eof"}}
+				if vi == 0 {
+					decs = append(decs, struct{ how, err string }{"decode", "ueof"}, struct{ how, err string }{"decode", "generic"})
+				}
+				for _, dc := range decs {
+					item := map[string]any{"op": "cuts", "pkg": t.Pkg.Name, "type": t.Def.Name, "hex": hex.EncodeToString(ev.B), "how": dc.how, "err": dc.err}
+					if dc.err == "ueof" {
+						// deliver the prefix, then io.ErrUnexpectedEOF instead of EOF
+						item["err"] = "ueof"
 					}
-					r.Eval(t.Label + "|" + decName + "|" + role)
-					sampleMu.Lock()
-					totalCuts++
-					sampleMu.Unlock()
-					loc := t.Locus()
-					loc["decoder"] = decName
-					loc["role"] = role
-					mkDetail := func(extra map[string]any) map[string]any {
-						m := map[string]any{"type": t.Def.Name, "origin": t.Label, "value": ev.V, "encoding": hex.EncodeToString(ev.B), "cut": k, "decoder": decName, "schema": t.Pkg.Text}
-						for kk, x := range extra {
-							m[kk] = x
+					codes, detail, dead := runCuts(ch, item, len(ev.B))
+					decName := dc.how
+					if dc.err != "" && dc.err != "eof" {
+						decName += "/" + dc.err
+					}
+					for k, c := range codes {
+						role := "?"
+						if k < len(roles) {
+							role = roles[k].Kind
 						}
-						return m
-					}
-					if c == 'e' {
-						if d, ok := detail[k]; ok && d.Alloc > allocBound(k) {
-							r.Violate("truncation: allocation out of proportion to the input", loc, mkDetail(map[string]any{"alloc": d.Alloc, "bound": allocBound(k)}))
+						if asan {
+							r.Eval(t.Label + "|" + decName + "|" + role + "|asan")
+						} else {
+							r.Eval(t.Label + "|" + decName + "|" + role)
 						}
-						continue
-					}
-					if c == 'D' {
-						cause := dead[k]
-						if strings.HasPrefix(cause, "wall") {
-							r.Inconclusive("wall watchdog")
+						sampleMu.Lock()
+						totalCuts++
+						sampleMu.Unlock()
+						loc := t.Locus()
+						loc["decoder"] = decName
+						loc["role"] = role
+						if asan {
+							loc["build"] = "asan"
+						}
+						mkDetail := func(extra map[string]any) map[string]any {
+							m := map[string]any{"type": t.Def.Name, "origin": t.Label, "value": ev.V, "encoding": hex.EncodeToString(ev.B), "cut": k, "decoder": decName, "schema": t.Pkg.Text}
+							for kk, x := range extra {
+								m[kk] = x
+							}
+							return m
+						}
+						if c == 'e' {
+							if d, ok := detail[k]; ok && d.Alloc > allocBound(k) {
+								r.Violate("truncation: allocation out of proportion to the input", loc, mkDetail(map[string]any{"alloc": d.Alloc, "bound": allocBound(k)}))
+							}
 							continue
 						}
-						loc["how"] = strings.SplitN(cause, ":", 2)[0]
-						r.Violate("truncation: process died or exceeded the CPU budget", loc, mkDetail(map[string]any{"cause": cause}))
-						continue
-					}
-					if c == '?' {
-						r.Inconclusive("cut not executed (sweep abandoned after repeated crashes)")
-						continue
-					}
-					d := detail[k]
-					if c == 'n' {
-						// soundness cross-check: is the prefix a complete encoding for the reference decoder?
-						if dc.how == "unmarshal" || dc.err == "eof" || dc.err == "" {
-							if _, n, derr := t.Ctx.DecodeRecord(t.Def.Name, ev.B[:k]); derr == nil && n == k {
-								r.Inconclusive("prefix is itself a conformant encoding")
+						if c == 'D' {
+							cause := dead[k]
+							if strings.HasPrefix(cause, "wall") {
+								r.Inconclusive("wall watchdog")
 								continue
 							}
+							loc["how"] = strings.SplitN(cause, ":", 2)[0]
+							r.Violate("truncation: process died or exceeded the CPU budget", loc, mkDetail(map[string]any{"cause": cause}))
+							continue
 						}
-						r.Violate("truncation: accepted without error", loc, mkDetail(nil))
-						continue
+						if c == '?' {
+							r.Inconclusive("cut not executed (sweep abandoned after repeated crashes)")
+							continue
+						}
+						d := detail[k]
+						if c == 'n' {
+							// soundness cross-check: is the prefix a complete encoding for the reference decoder?
+							if dc.how == "unmarshal" || dc.err == "eof" || dc.err == "" {
+								if _, n, derr := t.Ctx.DecodeRecord(t.Def.Name, ev.B[:k]); derr == nil && n == k {
+									r.Inconclusive("prefix is itself a conformant encoding")
+									continue
+								}
+							}
+							r.Violate("truncation: accepted without error", loc, mkDetail(nil))
+							continue
+						}
+						loc["site"] = siteTop(d.Site)
+						r.Violate("truncation: "+outcomeClass(d.Outcome), loc, mkDetail(map[string]any{"outcome": d.Outcome, "site": d.Site}))
 					}
-					loc["site"] = siteTop(d.Site)
-					r.Violate("truncation: "+outcomeClass(d.Outcome), loc, mkDetail(map[string]any{"outcome": d.Outcome, "site": d.Site}))
+					sampleMu.Lock()
+					if sampled < 4 && len(ev.B) > 10 && len(ev.B) < 60 && strings.Count(string(codes), "e") == len(codes) {
+						sampled++
+						r.Sample(map[string]any{"type": t.Label, "decoder": decName, "encoding": hex.EncodeToString(ev.B), "cuts": len(codes), "outcome_per_cut": string(codes), "legend": "e = error returned"})
+					}
+					sampleMu.Unlock()
 				}
-				sampleMu.Lock()
-				if sampled < 4 && len(ev.B) > 10 && len(ev.B) < 60 && strings.Count(string(codes), "e") == len(codes) {
-					sampled++
-					r.Sample(map[string]any{"type": t.Label, "decoder": decName, "encoding": hex.EncodeToString(ev.B), "cuts": len(codes), "outcome_per_cut": string(codes), "legend": "e = error returned"})
-				}
-				sampleMu.Unlock()
 			}
-		}
-	})
+		})
+	}
+	r.Set("sanitizer_pass", len(passes) > 1)
 	r.Set("cuts_executed", totalCuts)
 	r.SetExhaustive(false)
 	r.Set("exhaustive_over_cut_points_per_encoding", true)
